@@ -5,7 +5,7 @@ import io
 import z3
 
 from . import symfs
-from .pathsym import PathSym, Infeasible, par_explore
+from .pathsym import PathSym, Infeasible, par_explore, member_of
 from .universe import World, FIVE
 
 OK = frozenset(["ok"])
@@ -592,7 +592,7 @@ def explore_steps(w_args, menu_fn, splits=None, clauses=None, procs=None, deadli
         w = World(**w_args)
         menu = menu_fn(w)
         idx = list(split) if split is not None else list(range(len(menu)))
-        ps = PathSym(w.inv(**(inv_kwargs or {})) + [z3.Or([CALLV == n for n in idx])])
+        ps = PathSym(w.inv(**(inv_kwargs or {})) + [member_of(CALLV, idx)])
         dl = (_t.time() + deadline_s) if deadline_s else None
         recs = ps.explore(lambda p: run_step(p, w, menu, extra_assume), deadline=dl)
         w.cleanup()
